@@ -33,12 +33,20 @@ Proof.
       rewrite noassign_list_app, (Hrec _ _ _ _ E). reflexivity.
     + destruct x; eapply Hwrap; exact H.
   - (* BOr x y *)
-    destruct x as [f args| | | |l|a K|x1 y1|cc t|x1];
-      try (destruct (comp n _ cnt) as [[c1 k1]|] eqn:E1; [|discriminate];
-           destruct (comp n y k1) as [[c2 k2]|] eqn:E2; [|discriminate]; inversion H; subst;
-           rewrite noassign_list_app, (Hrec _ _ _ _ E1), (Hrec _ _ _ _ E2); reflexivity).
-    destruct (comp n _ (S cnt)) as [[c1 k1]|] eqn:E1; [|discriminate]. inversion H; subst.
-    cbn [noassign_list]. rewrite noassign_block', (Hrec _ _ _ _ E1). reflexivity.
+    assert (Plain: forall x', match comp n x' cnt with Some (c1,k1) =>
+                 match comp n y k1 with Some (c2,k2) => Some (c1++c2,k2) | None => None end | None => None end = Some (c, k) ->
+               noassign_list c = true).
+    { intros x' H'. destruct (comp n x' cnt) as [[c1 k1]|] eqn:E1; [|discriminate].
+      destruct (comp n y k1) as [[c2 k2]|] eqn:E2; [|discriminate]. inversion H'; subst.
+      rewrite noassign_list_app, (Hrec _ _ _ _ E1), (Hrec _ _ _ _ E2). reflexivity. }
+    destruct x as [f args| | | |l|a K|x1 y1|cc t|x1]; try (apply (Plain _ H)).
+    destruct (tcut cc).
+    + destruct (comp n _ (S (S cnt))) as [[c1 k1]|] eqn:E1; [|discriminate].
+      destruct (comp n y k1) as [[c2 k2]|] eqn:E2; [|discriminate]. inversion H; subst.
+      cbn [noassign_list]. rewrite noassign_block'. cbn [app noassign_list].
+      rewrite noassign_block', (Hrec _ _ _ _ E1), (Hrec _ _ _ _ E2). reflexivity.
+    + destruct (comp n _ (S cnt)) as [[c1 k1]|] eqn:E1; [|discriminate]. inversion H; subst.
+      cbn [noassign_list]. rewrite noassign_block', (Hrec _ _ _ _ E1). reflexivity.
 Qed.
 
 Lemma arg_unifications_noassign : forall pos i args code, noassign_list code = true ->
